@@ -745,6 +745,8 @@ class ET(Inverter):
         except ValueError:
             # the first eco mode group does not hold a decodable schedule, so it cannot be an emulated mode
             return mode
+        if eco_mode is None:
+            raise RequestRejectedException("Unable to read eco_mode_1 to determine the operation mode")
         if eco_mode.is_eco_charge_mode():
             return OperationMode.ECO_CHARGE
         if eco_mode.is_eco_discharge_mode():
